@@ -3,21 +3,21 @@ From Coq Require Import List NArith ZArith Bool.
 From C33 Require Import C16.Proto C16.Model C16.Spec C17.Model C17.Spec C17.Proofs C17.ProofsFee.
 Import ListNotations.
 
-(** CreateTxGroup produces the hash structure that Check demands. *)
+(** CreateTxGroup produces the hash structure that Check demands; the last
+    member carries no Next, whatever the last input carried. *)
 Theorem C17_created_group_chained :
   forall (H : list N -> list N) txs rate G,
     create_group H txs rate = inr G ->
-    chained H G /\ last_next G = last_next txs /\ length G = length txs /\
+    chained H G /\ last_next G = [] /\ length G = length txs /\
     others_fee_free G = true /\ (2 <= length G)%nat.
 Proof. exact create_group_spec. Qed.
 Print Assumptions C17_created_group_chained.
 
-(** A created group, its members signed in any way, passes Check — when the
-    last input carried no stale [next]. *)
-Theorem C17_created_group_checks_partial :
+(** A created group, its members signed in any way, passes Check (for every
+    input list, a last input taken from an earlier group included). *)
+Theorem C17_created_group_checks :
   forall (H : list N -> list N) txs rate G L e tot,
     create_group H txs rate = inr G ->
-    last_next_empty txs = true ->
     map unsig L = map unsig G ->
     (Z.of_nat (length G) <= max_group)%Z ->
     existsb (chain_bad e) L = false ->
@@ -25,8 +25,8 @@ Theorem C17_created_group_checks_partial :
     sum_fees L (e_minfee e) 0 = Some tot -> (tot <= head_fee L)%Z ->
     ((head_fee L >? e_maxfee e)%Z && (e_maxfee e >? 0)%Z && is_fork (e_height e) (e_block e) = false) ->
     check_group H e L = EOk.
-Proof. exact created_group_checks_partial. Qed.
-Print Assumptions C17_created_group_checks_partial.
+Proof. exact created_group_checks. Qed.
+Print Assumptions C17_created_group_checks.
 
 (** The fee CreateTxGroup puts on the head covers what Check asks of the signed
     group at the creation rate: unsigned inputs (300 bytes are budgeted per
@@ -44,11 +44,10 @@ Proof. exact created_fee_sufficient. Qed.
 Print Assumptions C17_created_fee_sufficient.
 
 (** Created from unsigned inputs, signed, presented at the creation rate: accepted. *)
-Theorem C17_created_group_passes_partial :
+Theorem C17_created_group_passes :
   forall (H : list N -> list N) txs rate G L e,
     (forall a b, length (H a) = length (H b)) ->
     create_group H txs rate = inr G ->
-    last_next_empty txs = true ->
     Forall (fun t => signature t = None) txs ->
     (0 <= rate)%Z -> (101 * rate * Z.of_nat (length txs) < 2 ^ 63)%Z ->
     (Z.of_nat (length txs) <= max_group)%Z ->
@@ -59,11 +58,7 @@ Theorem C17_created_group_passes_partial :
     ((head_fee L >? e_maxfee e)%Z && (e_maxfee e >? 0)%Z && is_fork (e_height e) (e_block e) = false) ->
     check_group H e L = EOk.
 Proof. exact created_group_passes. Qed.
-Print Assumptions C17_created_group_passes_partial.
-
-Theorem C17_created_group_checks_refuted : ~ C17_created_group_checks_full.
-Proof. exact created_group_checks_refuted. Qed.
-Print Assumptions C17_created_group_checks_refuted.
+Print Assumptions C17_created_group_passes.
 
 (** What passes Check and shares the header of a chained (created) group has
     the same members, field by field, signatures aside. *)
@@ -146,11 +141,12 @@ Theorem C17_tx_path_equiv :
 Proof. exact tx_path_equiv. Qed.
 Print Assumptions C17_tx_path_equiv.
 
-(** RebuiltGroup restores the hash structure (it does not touch the counts). *)
+(** RebuiltGroup restores the hash structure (it does not touch the counts);
+    the last member carries no Next afterwards. *)
 Theorem C17_rebuilt_group_chained :
   forall (H : list N -> list N) L M,
     rebuilt_group H L = Some M ->
     Forall (fun t => groupCount t = Z.of_nat (length L)) L ->
-    chained H M.
+    chained H M /\ last_next M = [].
 Proof. exact rebuilt_group_chained. Qed.
 Print Assumptions C17_rebuilt_group_chained.
